@@ -15,7 +15,31 @@
     `Z`, with no contract.  The harness checks the contract on the real flate2 path for every
     generated machine (it does not hold there for compressed forms above 32 KiB; that is reported
     by the round-trip monitor, not hidden here).
-  * Heap use is outside the model (measured by the harness, supporting evidence only).
+  * Memory.  The allocator is outside the model; what the model CAN say is "no amplification",
+    and that is a theorem here.  `Machine.cells` (Spec/C11.lean) counts what a decoded machine
+    occupies up to a constant factor per kind: states + present transition vectors (a present but
+    empty vector counts 1) + transition entries + distributions.
+    - `C11_decode_no_amplification`: `decodeMachine b = some m → m.cells ≤ |b|`, with the exact
+      wire weights (19 header bytes, 16 per state, 25 per `Dist`, 1 per present vector, 5 per
+      entry); `C11_decode_no_amplification_rem` is the same for `decMachine` / `decState`, which
+      return the unread input.  The bound is attained (`C11_no_amplification_tight`).
+    - `C11_length_prefix_checked`: a `Vec` length prefix larger than the number of bytes that
+      follow it makes the decode FAIL at once (the model tests `hasAtLeast n rest`, which looks
+      at no more than `n` list cells, and does not iterate or build anything); an accepted vector
+      is shorter than the input that held it.  bincode itself caps serde's preallocation
+      (`size_hint::cautious`) and then fails at end of input or at the byte limit: same verdict.
+    - `C11_fromStr_memory_model`: for every string `s` and EVERY zlib behaviour whose bounded read
+      returns at most `MAX = MAX_DECOMPRESSED_SIZE` bytes (`Z.Bounded`, the stated contract of
+      the read into the fixed buffer; it says nothing about how far the stream WOULD expand):
+      base64 output ≤ 3/4 |s|, decompressed bytes ≤ MAX, `m.cells + 19 ≤ MAX`,
+      `16 * #states + 19 ≤ MAX`, and the sum of all three is ≤ |s| + 2 * MAX.
+    What this does NOT say: it is a statement about the NUMBER OF CELLS the decoder can produce
+    from the bytes it is given, not about bytes on the heap.  `size_of::<State>()`, `Vec` growth
+    policy (capacity up to 2x length), the zeroed `MAX`-byte read buffer, flate2's and base64's
+    internal buffers and allocator overhead are constant factors (or constants) outside the
+    model; with them the theorem reads "heap ≤ c1 * MAX + c2 * |s| + c3" for constants fixed by
+    the type layouts, and the counting-allocator measurement on bomb streams (harness `codec-*`)
+    stays as supporting evidence for those constants.
   * `WFm m`: the model keeps `u64`/`usize` fields as `Nat`; `WFm` says they fit 64 bits and every
     state has `EVENT_NUM` transition slots.  Every Rust `Machine` satisfies it, and so does
     everything the decoder returns (`C11_decoded_representable`).
@@ -30,6 +54,7 @@ import MbVerif.Proofs.CodecDecodeWF
 import MbVerif.Proofs.CodecBase64
 import MbVerif.Proofs.CodecStr
 import MbVerif.Proofs.CodecParseV1
+import MbVerif.Proofs.CodecSize
 
 namespace Mb.C11
 open Mb
@@ -130,6 +155,55 @@ theorem C11_stage_sizes (Z : Zlib) (hB : Z.Bounded) (s : Bytes) (m : Machine) (h
   simp only [List.length_drop] at h1
   omega
 
+/-! ### no amplification (the model's half of the memory bound) -/
+
+/-- Whatever bincode accepts has no more cells than it was given bytes: every state costs at
+    least 16 input bytes, every distribution 25, every present transition vector 1, every
+    transition entry 5, and the header 19. -/
+theorem C11_decode_no_amplification (b : Bytes) (m : Machine) (h : Codec.decodeMachine b = some m) :
+    m.cells ≤ b.length ∧
+    m.cells + 15 * m.states.length + 19 ≤ b.length ∧
+    16 * m.states.length + 25 * m.distCount + m.vecCount + 5 * m.transCount + 19 ≤ b.length := by
+  have h1 := Codec.decodeMachine_cells_le h
+  exact ⟨by omega, h1, Codec.decodeMachine_consumes h⟩
+
+/-- The same for the decoders that return the unread input `r`: cells built + bytes left over
+    never exceed the bytes given. -/
+theorem C11_decode_no_amplification_rem :
+    (∀ (bs r : Bytes) (m : Machine), Codec.decMachine bs = some (m, r) →
+      m.cells + 15 * m.states.length + 19 + r.length ≤ bs.length) ∧
+    (∀ (bs r : Bytes) (s : State), Codec.decState bs = some (s, r) →
+      1 + s.vecCount + s.transCount + s.distCount + 15 + r.length ≤ bs.length) ∧
+    (∀ (bs r : Bytes) (ts : List Trans), Codec.decVec Codec.decTrans bs = some (ts, r) →
+      5 * ts.length + 1 + r.length ≤ bs.length) ∧
+    (∀ (bs r : Bytes) (d : Dist), Codec.decDist bs = some (d, r) → r.length + 25 ≤ bs.length) :=
+  ⟨fun _ _ _ h => Codec.decMachine_cells_le h, fun _ _ _ h => Codec.decState_cells_le h,
+   fun _ _ _ h => Codec.decTransVec_consumes h, fun _ _ _ h => Codec.decDist_consumes h⟩
+
+/-- A `Vec` length prefix `n` followed by fewer than `n` bytes is rejected without calling the
+    element decoder (for ANY element decoder); and an accepted vector is shorter than its input. -/
+theorem C11_length_prefix_checked {α : Type} (dec : Bytes → Option (α × Bytes)) (bs : Bytes) :
+    (∀ n r, Codec.decVarint bs = some (n, r) → r.length < n → Codec.decVec dec bs = none) ∧
+    (∀ l r, Codec.decVec dec bs = some (l, r) → l.length + 1 ≤ bs.length) :=
+  ⟨fun _ _ h hn => Codec.decVec_prefix_too_large dec h hn, fun _ _ h => Codec.decVec_length_le h⟩
+
+/-- Everything the model of `from_str` builds is bounded by a linear function of `|s|` and `MAX`,
+    for every zlib behaviour whose bounded read returns at most `MAX` bytes — whatever the
+    compressed stream would expand to. -/
+theorem C11_fromStr_memory_model (Z : Zlib) (hB : Z.Bounded) (s : Bytes) (m : Machine)
+    (h : fromStr Z s = .ok m) :
+    ∃ compressed raw, B64.dec (s.drop 2) = some compressed ∧ Z.readOnce compressed = some raw ∧
+      Codec.decodeMachine raw = some m ∧
+      4 * compressed.length + 6 ≤ 3 * s.length ∧
+      raw.length ≤ MAX ∧
+      m.cells + 15 * m.states.length + 19 ≤ raw.length ∧
+      m.cells + 19 ≤ MAX ∧
+      16 * m.states.length + 19 ≤ MAX ∧
+      compressed.length + raw.length + m.cells ≤ s.length + 2 * MAX := by
+  obtain ⟨c, raw, hc, hr, hm, h1, h2, h3⟩ := fromStr_sizes hB h
+  have h4 := Codec.decodeMachine_consumes hm
+  exact ⟨c, raw, hc, hr, hm, h1, h2, h3, by omega, by omega, by omega⟩
+
 /-- The checked slices of `from_str` never fail: it computes the slice-free `fromStrPure`. -/
 theorem C11_from_str_slices_in_range (Z : Zlib) (s : Bytes) : fromStr Z s = fromStrPure Z s :=
   fromStr_eq_pure Z s
@@ -189,5 +263,71 @@ example : Admissible sample := sample_admissible
 
 example : fromStr storeZ (serialize storeZ sample) = .ok sample :=
   C11_roundtrip storeZ ⟨fun _ _ => rfl, fun _ h => by simp [storeZ] at h⟩ sample sample_admissible
+
+/-! ### non-vacuity of the size theorems -/
+
+/-- the sample has 2 states, 2 present vectors, 3 transition entries and 3 distributions -/
+example : sample.cells = 10 ∧ sample.states.length = 2 ∧ sample.vecCount = 2 ∧ sample.transCount = 3 ∧
+    sample.distCount = 3 := by decide +kernel
+
+/-- ... and its encoding is 192 bytes, above the guaranteed `10 + 15 * 2 + 19` -/
+example : (Codec.encMachine sample).length = 192 := by decide +kernel
+
+/-- the smallest one-state machine: 35 bytes -/
+def minimalBytes : Bytes := List.replicate 18 0 ++ [1] ++ List.replicate 16 0
+
+def minimalMachine : Machine :=
+  { allowedPaddingPackets := 0, maxPaddingFrac := 0, allowedBlockedMicrosec := 0, maxBlockingFrac := 0,
+    states := [{ action := none, counterA := none, counterB := none, transitions := List.replicate 13 none }] }
+
+/-- The bound of `C11_decode_no_amplification` is attained: no constant in it can be raised. -/
+theorem C11_no_amplification_tight :
+    Codec.decodeMachine minimalBytes = some minimalMachine ∧
+      minimalMachine.cells + 15 * minimalMachine.states.length + 19 = minimalBytes.length := by
+  decide +kernel
+
+/-- a state-count prefix of 2^64 - 1 (varint tag 253, eight 0xFF bytes) in front of 40 bytes: rejected -/
+example : Codec.decodeMachine (List.replicate 18 0 ++ [253] ++ List.replicate 8 255 ++ List.replicate 40 0) = none ∧
+    Codec.decVarint ([253] ++ List.replicate 8 255 ++ List.replicate 40 0) = some (2 ^ 64 - 1, List.replicate 40 0) ∧
+    Codec.decVec Codec.decState ([253] ++ List.replicate 8 255 ++ List.replicate 40 0) = none := by
+  decide +kernel
+
+/-- a transition-vector prefix of 65535 entries with 30 bytes left: rejected -/
+example : Codec.decodeMachine
+    (List.replicate 18 0 ++ [1] ++ [0, 0, 0] ++ [1, 251, 255, 255] ++ List.replicate 30 0) = none := by
+  decide +kernel
+
+/-- a zlib that honours the contract AND the buffer bound (store, read truncated to `MAX`) -/
+def storeZB : Zlib :=
+  { deflate := fun x => 120 :: x,
+    readOnce := fun y => match y with | [] => none | _ :: x => some (x.take MAX) }
+
+theorem storeZB_bounded : storeZB.Bounded := by
+  intro y x h
+  cases y with
+  | nil => simp [storeZB] at h
+  | cons b y => simp [storeZB] at h; rw [← h]; simp [List.length_take]; omega
+
+theorem storeZB_contract : storeZB.Contract :=
+  ⟨fun x hx => by simp [storeZB, List.take_of_length_le hx], fun _ h => by simp [storeZB] at h⟩
+
+/-- the hypotheses of `C11_fromStr_memory_model` are satisfiable with an accepted machine -/
+example : ∃ s, fromStr storeZB s = .ok sample :=
+  ⟨serialize storeZB sample, C11_roundtrip storeZB storeZB_contract sample sample_admissible⟩
+
+/-- a "bomb": every compressed input claims to expand to 256^|y| zero bytes (never materialised
+    here); the bounded read hands over at most `MAX` of them, so the theorem applies to it -/
+def bombZ : Zlib :=
+  { deflate := fun x => x,
+    readOnce := fun y => some (List.replicate (min (256 ^ y.length) MAX) 0) }
+
+theorem bombZ_bounded : bombZ.Bounded := by
+  intro y x h
+  simp [bombZ] at h
+  rw [← h]; simp [List.length_replicate]; omega
+
+example (s : Bytes) (m : Machine) (h : fromStr bombZ s = .ok m) : m.cells + 19 ≤ MAX := by
+  obtain ⟨_, _, _, _, _, _, _, _, h7, _⟩ := C11_fromStr_memory_model bombZ bombZ_bounded s m h
+  exact h7
 
 end Mb.C11
